@@ -79,6 +79,10 @@ pub struct Digest<'a> {
 }
 
 pub fn op_of<'s>(scn: &'s Scenario, th: u32, ix: u32) -> Option<&'s Op> {
+    if th >= 3000 {
+        // operation issued from inside the notification callback of subscriber (th - 3000)
+        return scn.subs.iter().find(|x| x.id == th - 3000).and_then(|x| x.on_notify_ops.get((ix / 16) as usize)).and_then(|x| x.1.get((ix % 16) as usize));
+    }
     if th >= 2000 {
         // operation issued from inside on_unsubscribe of subscriber (th - 2000)
         return scn.subs.iter().find(|x| x.id == th - 2000).and_then(|x| x.on_unsub_ops.get(ix as usize));
